@@ -21,7 +21,7 @@ func init() {
 			"(6) the groups: multi-key operations group keys by calKeyFn(key), sort the groups with a single strict comparison of their shard index on every path, and take per-shard locks in that order. " +
 			"NOT decided: deadlock freedom in general (these are the necessary ordering conditions), re-entrancy misuse, fairness.",
 		Assumptions: []string{"sync.RWMutex semantics", "multi-key callers pass duplicate-free, consistently ordered lists (as the property states)"},
-		Floors:      map[string]int{"C02.guarded-by": 20, "C02.no-block-under-table-lock": 6, "C02.register-before-block": 6, "C02.mode-table": 12, "C02.reclaim": 6, "C02.entry-create": 6, "C02.group-order": 3},
+		Floors:      map[string]int{"C02.guarded-by": 20, "C02.no-block-under-table-lock": 6, "C02.register-before-block": 6, "C02.mode-table": 12, "C02.reclaim": 6, "C02.entry-create": 6, "C02.group-order": 3, "C02.delegation": 8, "C02.index-provenance": 8, "C02.construction": 2},
 		Run:         runC02,
 	})
 }
@@ -55,6 +55,15 @@ func runC02(c *Ctx) {
 		x.run()
 	}
 	c.checkGroupOrder()
+	// the groups' single-key forms: ls[calKeyFn(key)].<same method>(key) — a group RLock that delegates to Lock, or
+	// an Unlock routed by something other than the key, breaks the mode table / exclusion of the sharded lockers
+	if numbs := c.mustField("remap", "ReMap", "numbs"); numbs != nil {
+		for _, w := range wideContainers {
+			if w.rel == rel {
+				c.checkWideContainer("C02", w, numbs)
+			}
+		}
+	}
 }
 
 func (x *klCtx) rwCall(e *Event) (op string, w *Sym, ok bool) {
